@@ -301,6 +301,76 @@ pub fn find_real(sc: &FindScenario, ctx: &mut Ctx, bins: &Path, sub: &str, cmd_t
     })
 }
 
+/// The real find with a reader of its standard output that goes away as soon as the first
+/// child has run (`find … | head -1`). Returns find's exit status and how many of the children
+/// that ran were scripted to fail; `None` when no child ran before find ended.
+pub fn find_real_reader_leaves(sc: &FindScenario, ctx: &mut Ctx, bins: &Path, cmd_token: &str) -> Result<Option<(RunStatus, usize)>, String> {
+    use std::os::unix::io::AsRawFd;
+    let root = ctx.scratch.join("P3").join("A");
+    let _ = std::env::set_current_dir(&ctx.scratch);
+    crate::sys::wipe(&ctx.scratch.join("P3"));
+    std::fs::create_dir_all(&root).map_err(|e| e.to_string())?;
+    tree::build(&root, &sc.tree).map_err(|e| format!("cannot build tree: {e}"))?;
+    let dir = ctx.scratch.join("P3.xc");
+    crate::sys::wipe(&dir);
+    let _ = std::fs::create_dir_all(&dir);
+    let lp = dir.join("child.log");
+    let sp = dir.join("child.script");
+    let _ = std::fs::write(&sp, script_of(&sc.outcomes).ok_or("outcome not scriptable")?);
+    if let Some(list) = sc.starts_file_content() {
+        let _ = std::fs::write(root.join(crate::find::STARTS_FILE), list);
+    }
+    let mut argv: Vec<String> = vec![];
+    for a in &sc.full_argv() {
+        if a == cmd_token || *a == format!("{cmd_token}2") {
+            argv.push(ctx.simchild.to_string_lossy().into_owned());
+            argv.push(lp.to_string_lossy().into_owned());
+            argv.push(sp.to_string_lossy().into_owned());
+        } else {
+            argv.push(a.clone());
+        }
+    }
+    let mut c = Command::new(bins.join("find"));
+    c.args(&argv).current_dir(&root).stdin(Stdio::null()).stdout(Stdio::piped()).stderr(Stdio::null());
+    base_env(&mut c, ctx);
+    let mut child = c.spawn().map_err(|e| format!("cannot start find: {e}"))?;
+    let mut pipe = child.stdout.take().unwrap();
+    unsafe {
+        let fd = pipe.as_raw_fd();
+        let fl = libc::fcntl(fd, libc::F_GETFL);
+        libc::fcntl(fd, libc::F_SETFL, fl | libc::O_NONBLOCK);
+    }
+    // read along until the first child has left its record, then go away
+    let start = std::time::Instant::now();
+    let mut buf = [0u8; 4096];
+    let mut ended = None;
+    loop {
+        let _ = pipe.read(&mut buf);
+        if std::fs::read(&lp).map(|d| d.windows(5).any(|w| w == b"\nEND\n")).unwrap_or(false) {
+            break;
+        }
+        if let Ok(Some(st)) = child.try_wait() {
+            ended = Some(st);
+            break;
+        }
+        if start.elapsed() > std::time::Duration::from_secs(5) {
+            break;
+        }
+        std::thread::sleep(std::time::Duration::from_micros(500));
+    }
+    drop(pipe);
+    let st = match ended {
+        Some(st) => st,
+        None => child.wait().map_err(|e| e.to_string())?,
+    };
+    let recs = crate::xargs::parse_child_records(&std::fs::read(&lp).unwrap_or_default());
+    if recs.is_empty() {
+        return Ok(None);
+    }
+    let failed = (0..recs.len()).filter(|k| !matches!(sc.outcomes.get(*k), None | Some(Outcome::Exit(0)))).count();
+    Ok(Some((status_of(st), failed)))
+}
+
 /// find: in-process (simulated sink and children) versus the real executable.
 pub fn find(sc: &FindScenario, ctx: &mut Ctx, bins: &Path, cmd_token: &str) -> Xc {
     if !sc.mutations.is_empty() || sc.now_ns.is_some() || sc.rlimit_stack.is_some() || sc.env.is_some() {
